@@ -56,6 +56,7 @@ type Unit struct {
 	fps   map[*flow.Block]*footprint
 	edgeLit     map[*flow.Block]edgeLiteral
 	litAssigned map[litPos][]string
+	inEmptyForNil bool
 }
 
 func NewWorld(p *load.Program) *World {
@@ -416,6 +417,11 @@ func (u *Unit) staleBetween(e *flow.Block, s *flow.Site) bool {
 		}
 		if _, isIdent := ast.Unparen(st.LHS).(*ast.Ident); !isIdent {
 			t := u.C.Term(st.LHS)
+			// `if m == nil { m = make(map[K]V) }`: a nil map or slice replaced by an empty one keeps every test of its
+			// length (and nothing but its length is read from it by the condition when the only path mentioned is m itself)
+			if u.emptyForNil(st, t) && onlyLenOf(u, e, t) {
+				continue
+			}
 			for p := range fp.paths {
 				if p == t || strings.HasPrefix(p, t+".") || strings.HasPrefix(p, t+"[") {
 					return true
@@ -424,6 +430,75 @@ func (u *Unit) staleBetween(e *flow.Block, s *flow.Site) bool {
 		}
 	}
 	return false
+}
+
+// emptyForNil: the store assigns a freshly made empty map/slice (make without a length, or with length 0) to t on a path
+// where t == nil is known.
+func (u *Unit) emptyForNil(st *flow.Site, t string) bool {
+	if st.RHS == nil {
+		return false
+	}
+	call, ok := ast.Unparen(st.RHS).(*ast.CallExpr)
+	if !ok {
+		return false
+	}
+	if id, isId := call.Fun.(*ast.Ident); !isId || id.Name != "make" {
+		return false
+	}
+	if len(call.Args) >= 2 && u.C.ConstOf(call.Args[1]) != "0" {
+		if _, isMap := u.Info().TypeOf(call.Args[0]).Underlying().(*types.Map); !isMap {
+			return false
+		}
+	}
+	if u.inEmptyForNil {
+		return false
+	}
+	u.inEmptyForNil = true
+	defer func() { u.inEmptyForNil = false }()
+	pc := u.SitePC(st)
+	r := flow.Implies(pc, flow.MakeCmp(token.EQL, t, "nil", "", "nil"))
+	return r.Holds && r.Undecided == ""
+}
+
+// onlyLenOf: the raw condition of edge e mentions the access path t only as the operand of len().
+func onlyLenOf(u *Unit, e *flow.Block, t string) bool {
+	ok := true
+	var walk func(f *flow.F)
+	walk = func(f *flow.F) {
+		if f == nil || !ok {
+			return
+		}
+		if f.Op == flow.OpAtom && f.Expr != nil {
+			var visit func(n ast.Node, underLen bool)
+			visit = func(n ast.Node, underLen bool) {
+				ast.Inspect(n, func(m ast.Node) bool {
+					if m == n {
+						return true
+					}
+					switch x := m.(type) {
+					case *ast.CallExpr:
+						if id, isId := x.Fun.(*ast.Ident); isId && id.Name == "len" && len(x.Args) == 1 {
+							if u.C.Term(x.Args[0]) == t {
+								return false // fine: len(t)
+							}
+						}
+					case *ast.SelectorExpr, *ast.IndexExpr:
+						if tt := u.C.Term(x.(ast.Expr)); tt == t || strings.HasPrefix(tt, t+".") || strings.HasPrefix(tt, t+"[") {
+							ok = false
+							return false
+						}
+					}
+					return ok
+				})
+			}
+			visit(&ast.ParenExpr{X: f.Expr}, false)
+		}
+		for _, k := range f.Kids {
+			walk(k)
+		}
+	}
+	walk(e.EdgeCond)
+	return ok
 }
 
 func (u *Unit) Pos(p token.Pos) string { return u.W.P.Pos(p) }
